@@ -7,6 +7,9 @@ From SH Require Import PromEval.Model PromEval.Proofs.
 Import ListNotations.
 Open Scope Z_scope.
 
+(* reduce the rationals of a result for display *)
+Definition Corr_free_vals (l : list val) : list val := map (fun v => match v with Some x => Some (Qred x) | None => None end) l.
+
 (* "aggregation operators (sum ...) compute their definitions at every timestamp with missing points excluded" —
    funcSum / funcSumOverTime: the sum of the present points; missing when there is none *)
 Theorem C27_sum_matches_definition :
@@ -77,6 +80,14 @@ Proof. exact (fun q col => conj (quantile_def_excludes_missing q col) (quantile_
 Theorem C27_over_time_window_bounded_partial : window_sweep = true.
 Proof. exact window_sweep_ok. Qed.
 
+(* present_over_time — REFUTED for the code as it is (finding F-C27g): funcPresentOverTime tests
+   "p || lastSeen < t-range", so a missing point yields 1 exactly when NO point lies within the range and is missing
+   when one does; the repaired variant (comparison the other way) gives the definition on the witness *)
+Theorem C27_present_over_time_refuted :
+  present_run false [0; 60; 120] [Some 5%Q; None; None] 60 None = [Some 1%Q; None; Some 1%Q] /\
+  present_run true  [0; 60; 120] [Some 5%Q; None; None] 60 None = [Some 1%Q; Some 1%Q; None].
+Proof. exact present_over_time_refuted. Qed.
+
 (* "Pushing an aggregation ... down into the storage query (reduction) yields the same result as evaluating it in
    the engine over the underlying series" — sum: the storage merges the rows of a group (events concatenated) and
    selects "sumsec"; that equals funcSum over the per-series "sumsec" values, rows that do not exist being missing
@@ -110,6 +121,14 @@ Theorem C27_reduction_what_refuted :
   same_result (exec false wq wdata (sel_plain WMin) [NAgg AMax 0%Q false []])
               (exec false wq wdata (sel_by WMin) [NAgg AMax 0%Q false []]) = false.
 Proof. exact reduction_what_refuted. Qed.
+
+(* quantile_over_time: strict window (as sum_over_time), the present points of the window sorted and interpolated
+   with the definition [quantile_def] above; multi-LOD axes: the model's window machine takes any axis and is
+   replayed against Engine.Exec on queries straddling a resolution switch (no theorem beyond the bounded sweep) *)
+Example C27_nonvacuous_quantile_over_time :
+  Corr_free_vals (quantile_over_time 1%Q [0; 60; 120; 180; 240] 120 60 [Some 1%Q; Some 9%Q; Some 2%Q; Some 8%Q; Some 3%Q])
+  = [None; None; Some 9%Q; Some 8%Q; Some 8%Q].
+Proof. vm_compute. reflexivity. Qed.
 
 (* non-vacuity *)
 Example C27_nonvacuous_kernels :
